@@ -5,6 +5,7 @@ import (
 	"net"
 	"strings"
 	"sync"
+	"sync/atomic"
 	"time"
 
 	"github.com/miekg/dns"
@@ -284,6 +285,7 @@ func runC14(c *Ctx) {
 	}
 	// 5. whole servers: TCP over an in-memory pipe (sequential per connection) and UDP on loopback
 	c14Transport(c, r)
+	c14GlobalInvalidFunc(c)
 	// forced interleaving on real UDP servers: an accepted-but-undecodable datagram, then two requests in flight
 	heldDatagrams(c, r, "udp")
 	heldDatagrams(c, r, "pc")
@@ -333,6 +335,82 @@ func (l *pipeListener) dial() net.Conn {
 	a, b := net.Pipe()
 	l.ch <- b
 	return a
+}
+
+// c14GlobalInvalidFunc: a server whose MsgInvalidFunc is left nil reports to the package-level DefaultMsgInvalidFunc as it
+// stands when the server starts — a callback installed there sees every message that neither reached the handler nor
+// was refused or ignored by the policy (runt datagrams, accepted queries that do not decode), over UDP and TCP.
+func c14GlobalInvalidFunc(c *Ctx) {
+	var mu sync.Mutex
+	var seen [][]byte
+	old := dns.DefaultMsgInvalidFunc
+	dns.DefaultMsgInvalidFunc = func(m []byte, err error) {
+		mu.Lock()
+		seen = append(seen, append([]byte{}, m...))
+		mu.Unlock()
+	}
+	defer func() { dns.DefaultMsgInvalidFunc = old }()
+	handled := int64(0)
+	h := dns.HandlerFunc(func(w dns.ResponseWriter, req *dns.Msg) {
+		atomic.AddInt64(&handled, 1)
+		m := new(dns.Msg)
+		m.SetReply(req)
+		w.WriteMsg(m)
+	})
+	undecodable := []byte{0x12, 0x34, 0x01, 0x00, 0, 1, 0, 0, 0, 0, 0, 0, 3, 'a', 'b'} // QDCOUNT 1, the question cut short
+	runt := []byte{1, 2, 3, 4, 5}
+	waitFor := func(n int) int {
+		for k := 0; k < 100; k++ {
+			mu.Lock()
+			l := len(seen)
+			mu.Unlock()
+			if l >= n {
+				return l
+			}
+			time.Sleep(10 * time.Millisecond)
+		}
+		mu.Lock()
+		defer mu.Unlock()
+		return len(seen)
+	}
+	// UDP
+	if pc, err := net.ListenPacket("udp", "127.0.0.1:0"); err == nil {
+		srv := &dns.Server{PacketConn: pc, Handler: h, ReadTimeout: 2 * time.Second}
+		started := make(chan struct{})
+		srv.NotifyStartedFunc = func() { close(started) }
+		go srv.ActivateAndServe()
+		<-started
+		if conn, err := net.Dial("udp", pc.LocalAddr().String()); err == nil {
+			conn.Write(runt)
+			conn.Write(undecodable)
+			got := waitFor(2)
+			c.Pred("invalid-callback", "global-invalid-callback-used:udp", "runt datagram, undecodable accepted query", got == 2 && atomic.LoadInt64(&handled) == 0,
+				fmt.Sprint(got, " reports, ", atomic.LoadInt64(&handled), " handler calls"), "2 reports, 0 handler calls", true)
+			conn.Close()
+		}
+		srv.Shutdown()
+	}
+	mu.Lock()
+	seen = nil
+	mu.Unlock()
+	// TCP
+	if l, err := net.Listen("tcp", "127.0.0.1:0"); err == nil {
+		srv := &dns.Server{Listener: l, Handler: h, ReadTimeout: 2 * time.Second}
+		started := make(chan struct{})
+		srv.NotifyStartedFunc = func() { close(started) }
+		go srv.ActivateAndServe()
+		<-started
+		if conn, err := net.Dial("tcp", l.Addr().String()); err == nil {
+			for _, b := range [][]byte{undecodable, runt} {
+				conn.Write(append(putUint(nil, 2, uint64(len(b))), b...))
+			}
+			got := waitFor(2)
+			c.Pred("invalid-callback", "global-invalid-callback-used:tcp", "undecodable accepted query, runt message", got == 2 && atomic.LoadInt64(&handled) == 0,
+				fmt.Sprint(got, " reports, ", atomic.LoadInt64(&handled), " handler calls"), "2 reports, 0 handler calls", true)
+			conn.Close()
+		}
+		srv.Shutdown()
+	}
 }
 
 func c14Transport(c *Ctx, r *Rng) {
